@@ -556,11 +556,18 @@ def h7(ctx, rid):
         raise core.AnchorLost('no quarantine rename')
 
 
+def h9(ctx, rid):
+    """the offline tools never truncate a file that still holds the only copy of its data (C16.W3 instances)"""
+    import props.c16 as c16
+    c16.w3(ctx, rid)
+
+
 RULES = [
     Rule('C07.H1', 'every raw destructive OS primitive call site lies in the owner module of its kind', h1, 8),
     Rule('C07.H2', 'in-crate positional write wrappers are called only by index-file builders, at constant offset 0, on the file they created', h2, 1),
     Rule('C07.H3', 'offsets of appends originate only in FileInner.size.fetch_add; the size counter is only loaded / fetch_add-ed', h3, 5),
     Rule('C07.H4', 'truncating create, remove and index-file creation act on paths derived from with_extension("index")', h4, 4),
+    Rule('C07.H9', 'the tools never truncate their own input: in-place recovery renames first (C16.W3 instances)', h9, 2),
     Rule('C07.H5', 'the call-graph closure of every query entry point contains no file mutator', h5, len(QUERY_ENTRIES)),
     Rule('C07.H6', 'next_blob_id is only loaded / fetch_add-ed; stores happen under &mut Storage and include failed-blob and quarantine-directory ids', h6, 3),
     Rule('C07.H6d', 'the id of a blob that failed to open is accounted on every path of the error arm of read_blobs', h6d, 1),
